@@ -11,7 +11,13 @@ import Sqfs.Spec.FsTree
       forest = <n> node*        node = <name> <mode> <uid> <gid> <mtime> <dev> <ino> <rdev> <target> forest
       extra / filePrefix / pattern = "-" (absent) | "p:<hex>"
     → "ok <dump>" | "err"      (dump format: see harness/h_c11.c)
-  isort <name>*          → the names after `insert_sorted` of each, in the order given
+  isort <name>*          → the names after `insert_sorted` of each, in the order given   (real: fstree_add_generic)
+  readnames <sorted 0|1> <name>*
+                         → the names in the order `read_names` (dir_unix.c) leaves them in `it->names`, i.e. the order
+                           the native iterator serves them (real: sqfs_dir_iterator_create_native under the readdir shim)
+  cmp <a> <b>            → "<sign of compare_names/strcmp(a, b)> <1 iff strcmp(a, b) < 0 as insert_sorted tests it>"
+  sortfiles <nrules> rule* <nfiles> path*     rule = <prio> <flags> <doGlob 0|1> <pathGlob 0|1> <pattern>
+                         → "ok" { " <path>:<flags>" } in the order `fstree_sort_files` leaves `fs->files`
   mon-sorted <name>*     → 1 iff the list is strictly increasing in strcmp order (`Sqfs.FsTree.SortedNames`); monitor op:
                            evaluated by the check on the child lists of the trees the *implementation* built
   lt <a> <b>             → 1 iff strcmp(a, b) < 0 in the model
@@ -92,7 +98,7 @@ partial def parseSteps : Nat → List String → Option (List Step)
 def runSteps (sorted : Bool) (d : Defaults) : List Step → TNode → List Path → Option (TNode × List Path)
   | [], t, l => some (t, l)
   | .add e extra :: rest, t, l =>
-      match addPath d e extra e.path t with
+      match addGeneric d e extra t with
       | none => none
       | some t' => runSteps sorted d rest t' (if e.hard then e.path :: l else l)
   | .glob target cfg rootDev forest :: rest, t, l =>
@@ -151,6 +157,40 @@ def step (line : String) : String :=
       let mk (n : Name) : TNode := .mk n default []
       let l := ns.foldl (fun acc n => insertSorted (mk n) acc) []
       String.intercalate " " (l.map fun t => toHexTok t.name)
+  | "readnames" :: sorted :: names =>
+    match nat? sorted, names.mapM fromHex with
+    | some so, some ns =>
+      let mk (n : Name) : HNode := .mk n default [] []
+      String.intercalate " " ((readNames (so != 0) (ns.map mk)).map fun h => toHexTok h.name)
+    | _, _ => "bad-op"
+  | "cmp" :: a :: b :: [] =>
+    match fromHex a, fromHex b with
+    | some a, some b =>
+      let c := compareNames (.mk a default [] []) (.mk b default [] [])
+      s!"{if c < 0 then "-1" else if c > 0 then "1" else "0"} {if nameLt a b then 1 else 0}"
+    | _, _ => "bad-op"
+  | "sortfiles" :: nr :: rest =>
+    match nat? nr with
+    | none => "bad-op"
+    | some nr =>
+      let rec rules (k : Nat) (toks : List String) (acc : List SortRule) : Option (List SortRule × List String) :=
+        match k, toks with
+        | 0, _ => some (acc.reverse, toks)
+        | k + 1, pr :: fl :: dg :: pg :: pat :: more => do
+          let r : SortRule := { prio := ← int? pr, flags := ← nat? fl, doGlob := (← nat? dg) != 0,
+                                pathGlob := (← nat? pg) != 0, pat := ← fromHex pat }
+          rules k more (r :: acc)
+        | _, _ => none
+      match rules nr rest [] with
+      | some (rs, nf :: paths) =>
+        match nat? nf, paths.mapM fromHex with
+        | some nf, some ps =>
+          if nf != ps.length then "bad-op"
+          else
+            let out := sortFiles globMatch rs (ps.map splitPath)
+            "ok" ++ String.join (out.map fun f => s!" {tokPath f.path}:{f.flags}")
+        | _, _ => "bad-op"
+      | _ => "bad-op"
   | "mon-sorted" :: names =>
     -- monitor: the specification predicate `SortedNames` evaluated on a child list observed in the implementation
     match names.mapM fromHex with
